@@ -197,6 +197,27 @@ def run(ctx):
         else:
             wit = rl.uncrossed_path([0], [c.block for c in fcc], edges=okE)
             r2.check(wit is None, "reload:from_config-after-parse-ok", "reload_config rebuilds pools only after parse() returned Ok", "reload_config can rebuild pools although parse failed", "", wit and rl.describe_path(wit))
+            # a valid file that differs from the configuration in force is *applied*: after parse() the only way past from_config is `nothing changed`, decided by
+            # comparing the whole configurations - a shortcut that compares some sections (general, pools) lets a change of the others (the top-level [plugins] every
+            # pool without a section of its own inherits) be stored, reported as reloaded and never reach the pools (round 11)
+            def _is_config(op_):
+                pl = op_place(op_)
+                return pl is not None and "pgcat::config::Config" in str(rl.local_ty(pl["l"])) and "Option" not in str(rl.local_ty(pl["l"]))
+            cmp_calls = [c_ for c_ in rl.calls("re:^<pgcat::config::Config as core::cmp::PartialEq>::(eq|ne)$", "re:^core::cmp::PartialEq::(eq|ne)$") if len(c_.args) == 2 and all(_is_config(a_) for a_ in c_.args)]
+            if not cmp_calls:
+                r2.missing("the comparison of the old with the new Config in reload_config")
+            else:
+                eqE = set()
+                for c_ in cmp_calls:
+                    for sw, o, te, fe in bool_value_edges(rl, lambda o, c_=c_: o.kind == "call" and o.call.block == c_.block, rsw):
+                        eqE.add(te if c_.name.endswith("::eq") else fe)
+                rets_ = [bb for bb, blk in enumerate(rl.blocks) if blk["term"]["k"] == "return"]
+                okT = {e[1] for e in okE}
+                w_ = rl.uncrossed_path(sorted(okT), rets_, edges=eqE, blocks=[c.block for c in fcc])
+                # error exits in between (none today) would be `?` edges; a path that reaches a return without the rebuild and without `equal` is a shortcut
+                r2.check(bool(eqE) and w_ is None, "reload:changed=>rebuilt", "after a successful parse() reload_config returns without from_config only over `old configuration == new configuration` (whole Configs compared)",
+                         "reload_config can return after a successful parse() without rebuilding the pools although the configurations differ (%s): a valid file whose only change lies outside what the shortcut compares - "
+                         "the top-level [plugins] section the pools inherit - is stored and reported as reloaded while every pool keeps its old settings, for good (the next reload sees no difference)" % (rl.describe_path(w_)[-200:] if w_ else ""))
             # the Err arm returns an error without touching pools
             reach = rl.reach([d for _, d in errE])
             r2.check(not [c for c in fcc if c.block in reach], "reload:err-arm-inert", "the parse-error arm never reaches from_config", "the parse-error arm reaches from_config")
